@@ -552,7 +552,8 @@ def rwr_execute(kind, ia, iw, ib, p, q):
 
 
 def _rwr_task(args):
-    kind, ia, iw, ib, nq, pstride, seed = args
+    kind, ia, iw, ib, nq, pstride, seed = args[:7]
+    chunk, nchunks = args[7:] or (0, 1)        # a task runs every nchunks-th p of its triple (wall time: SQLite runs are slow)
     # dry run: the numbers of yield points of A (it runs first) and of B (it runs last)
     t = execute(kind, [RWR_READ[ia], RWR_READ[ib], RWR_WRITE[iw]], rwr_schedule(10 ** 9, 10 ** 9))
     na, nb = t["lines"][0] + 2, t["lines"][1] + 2
@@ -561,9 +562,11 @@ def _rwr_task(args):
     qstride = 1
     if nq is None and (na + 1) * (nb + 1) > RWR_GRID_CAP:      # gRPC calls: several hundred lines each; thin the grid evenly
         pstride = qstride = int(((na + 1) * (nb + 1) / RWR_GRID_CAP) ** 0.5) + 1
-    for p in range(rng.randrange(pstride), na + 1, pstride):
+    for j, p in enumerate(range(rng.randrange(pstride), na + 1, pstride)):
         qs = (range(rng.randrange(qstride), nb + 1, qstride) if nq is None
               else sorted(rng.sample(range(0, nb + 1), min(nb + 1, nq))))
+        if j % nchunks != chunk:
+            continue
         for q in qs:
             out.append(rwr_execute(kind, ia, iw, ib, p, q))
     return out
@@ -590,7 +593,10 @@ def rwr_tasks(ctx):
         else:
             tasks += [(kind, a, w, b, None if a == b else 8, 3 if kind.startswith("grpc") and a != b else 1, ctx.seed)
                       for a, w, b in triples]
-    tasks.sort(key=lambda t: {"cached_rdb_threads": 0, "grpc_stub_inmemory": 1, "grpc_stub_journal": 1}.get(t[0], 2))   # longest first
+    nchunks = {"cached_rdb_threads": 4 if ctx.quick else 16, "grpc_stub_inmemory": 2 if ctx.quick else 16,
+               "grpc_stub_journal": 2 if ctx.quick else 16}
+    tasks = [t + (c, nchunks.get(t[0], 1)) for t in tasks for c in range(nchunks.get(t[0], 1))]
+    tasks.sort(key=lambda t: 0 if t[0] == "cached_rdb_threads" else 1 if t[0].startswith("grpc") else 2)   # longest first
     return tasks
 
 
@@ -686,7 +692,8 @@ def run(ctx):
                 "starts/ends + the final read-back state is validated by TLC against LinStorage (search over linearization "
                 "points); (2b) reader/writer/reader: two snapshot readers and one writer, reader A preempted at every line, the "
                 "writer runs to its end, reader B runs q lines, A finishes, B finishes (every (p, q) in thorough, every p x "
-                "seeded q in quick); SQLite connections interleaved per SQL statement are in the rdb part; (3) real OS processes (fork) free-running on "
+                "seeded q in quick); SQLite connections interleaved per SQL statement are in the rdb part; "
+                "(3) real OS processes (fork) free-running on "
                 "one journal file (one inherited JournalStorage object, or one object each) and on one SQLite file, ordered only "
                 "by end(a) < start(b) on the monotonic clock; distinct = distinct histories")
     r = tlc.require_model("InMemLock", "InMemLock_q", must_cover=["CStart", "CReadId", "CBumpId", "CReadLen", "CAppend", "SStart",
@@ -712,11 +719,13 @@ def run(ctx):
             traces += res
         rtasks = [(kind, ctx.seed * 1000 + i, (12 if kind == "cached_rdb_threads" else 40) if ctx.quick else 400)
                   for kind in KINDS for i in range(4)]
-        for res in ex.map(_random_task, rtasks):
+        random_results = ex.map(_random_task, rtasks)
+        rwr_results = ex.map(_rwr_task, rwr_tasks(ctx))      # submitted together: the pool stays full
+        for res in random_results:
             traces += res
         # reader / writer / reader: three workers, two preemptions, systematic
         n0 = len(traces)
-        for res in ex.map(_rwr_task, rwr_tasks(ctx)):
+        for res in rwr_results:
             traces += res
         ctx.notes["rwr_executions"] = len(traces) - n0
         # real OS processes, free running, ordered only by end(a) < start(b) on one monotonic clock
